@@ -17,11 +17,15 @@ type Op struct {
 	Arg    int
 	Val    int
 	Empty  bool
+	Full   bool // "add" refused because the bounded container is full
 	Call   int64
 	Ret    int64
 }
 
 func (o Op) String() string {
+	if o.Kind == "add" && o.Full {
+		return fmt.Sprintf("c%d:add(%d)->full@[%d,%d]", o.Client, o.Arg, o.Call, o.Ret)
+	}
 	if o.Kind == "add" {
 		return fmt.Sprintf("c%d:add(%d)@[%d,%d]", o.Client, o.Arg, o.Call, o.Ret)
 	}
@@ -31,9 +35,18 @@ func (o Op) String() string {
 	return fmt.Sprintf("c%d:rem->%d@[%d,%d]", o.Client, o.Val, o.Call, o.Ret)
 }
 
+// Cap bounds the sequential container (0: unbounded): an add on a container holding Cap items is refused.
+var Cap int
+
 func step(lifo bool, st []int, o Op) (bool, []int) {
 	switch o.Kind {
 	case "add":
+		if Cap > 0 && len(st) >= Cap {
+			return o.Full, st
+		}
+		if o.Full {
+			return false, st
+		}
 		return true, append(append([]int{}, st...), o.Arg)
 	case "rem":
 		if len(st) == 0 {
